@@ -50,6 +50,17 @@ Definition resolves_strict (s : schema) (c : colref) : bool :=
   | None => Nat.eqb (length (filter (fun f => f_name f =? r_name c) s)) 1
   end.
 
+(* qualifier-respecting resolution: a QUALIFIED reference q.n may only denote a field (Some q, n) or an unqualified field
+   (None, n) — never a field carrying another qualifier (which rule 3 of find_column_index would silently pick: the column
+   of ANOTHER relation that happens to have the same name). Bare references resolve as at run time. *)
+Definition ref_matches (f : field) (c : colref) : bool :=
+  (f_name f =? r_name c)
+  && match r_rel c with
+     | Some q => opt_eqb (f_rel f) (Some q) || opt_eqb (f_rel f) None
+     | None => true
+     end.
+Definition resolves_q (s : schema) (c : colref) : bool := existsb (fun f => ref_matches f c) s.
+
 Inductive jkind := JK_Inner | JK_Left | JK_Right | JK_Full | JK_Semi | JK_Anti | JK_Cross | JK_Single | JK_Mark.
 
 Inductive plan :=
@@ -92,32 +103,40 @@ Definition input_schema (p : plan) : schema :=
   | _ => flat_map schema_of (children p)
   end.
 
-Definition ok_refs (scope outer : schema) (refs : list colref) : bool :=
-  forallb (fun c => resolves scope c || resolves outer c) refs.
+(* well-formedness, parameterised by the resolution predicate `res` *)
+Definition ok_refs_gen (res : schema -> colref -> bool) (scope outer : schema) (refs : list colref) : bool :=
+  forallb (fun c => res scope c || res outer c) refs.
 
 (* every column reference resolves against the child schema(s) (or, inside a subquery, the enclosing scopes);
    expression lists and declared schemas have matching arity *)
-Fixpoint wf_plan (outer : schema) (p : plan) : bool :=
+Fixpoint wf_plan_gen (res : schema -> colref -> bool) (outer : schema) (p : plan) : bool :=
+  let ok := ok_refs_gen res in
   match p with
-  | PScan sch filt => ok_refs sch outer filt
-  | PFilter c pred => wf_plan outer c && ok_refs (schema_of c) outer pred
+  | PScan sch filt => ok sch outer filt
+  | PFilter c pred => wf_plan_gen res outer c && ok (schema_of c) outer pred
   | PProject c exprs sch =>
-      wf_plan outer c && forallb (ok_refs (schema_of c) outer) exprs && Nat.eqb (length exprs) (length sch)
+      wf_plan_gen res outer c && forallb (ok (schema_of c) outer) exprs && Nat.eqb (length exprs) (length sch)
   | PJoin jt l r onl onr jf sch =>
-      wf_plan outer l && wf_plan outer r
-      && forallb (ok_refs (schema_of l) outer) onl && forallb (ok_refs (schema_of r) outer) onr
-      && ok_refs (schema_of l ++ schema_of r) outer jf && Nat.eqb (length onl) (length onr)
+      wf_plan_gen res outer l && wf_plan_gen res outer r
+      && forallb (ok (schema_of l) outer) onl && forallb (ok (schema_of r) outer) onr
+      && ok (schema_of l ++ schema_of r) outer jf && Nat.eqb (length onl) (length onr)
   | PAgg c g a sch =>
-      wf_plan outer c && forallb (ok_refs (schema_of c) outer) g && forallb (ok_refs (schema_of c) outer) a
+      wf_plan_gen res outer c && forallb (ok (schema_of c) outer) g && forallb (ok (schema_of c) outer) a
       && Nat.eqb (length g + length a) (length sch)
-  | PSort c keys => wf_plan outer c && ok_refs (schema_of c) outer keys
-  | PLimit c | PDistinct c => wf_plan outer c
-  | PAlias c sch => wf_plan outer c
-  | PUnion cs sch => forallb (wf_plan outer) cs
+  | PSort c keys => wf_plan_gen res outer c && ok (schema_of c) outer keys
+  | PLimit c | PDistinct c => wf_plan_gen res outer c
+  | PAlias c sch => wf_plan_gen res outer c
+  | PUnion cs sch => forallb (wf_plan_gen res outer) cs
   | PLeaf _ => true
-  | POther cs refs sch => forallb (wf_plan outer) cs && ok_refs (flat_map schema_of cs) outer refs
-  | PSub q subs => wf_plan outer q && forallb (wf_plan (input_schema q ++ outer)) subs
+  | POther cs refs sch => forallb (wf_plan_gen res outer) cs && ok (flat_map schema_of cs) outer refs
+  | PSub q subs => wf_plan_gen res outer q && forallb (wf_plan_gen res (input_schema q ++ outer)) subs
   end.
+
+(* run-time resolvability (what makes the plan executable) and qualifier-respecting resolvability (what makes every
+   reference denote a column of the relation it names) *)
+Definition ok_refs := ok_refs_gen resolves.
+Definition wf_plan := wf_plan_gen resolves.
+Definition wf_plan_q := wf_plan_gen resolves_q.
 
 (* declared schemas agree in arity with what the children declare (SubqueryAlias, Union, Join): a coverage metric, not
    part of the verdict — ProjectionPushdown leaves SubqueryAlias schemas wider than their pruned input *)
@@ -199,7 +218,8 @@ Definition pack_group_keys (pk ty64 : Z) (p : plan) : plan :=
   end.
 
 (* group-key reduction: Aggregate[g_0..g_{n-1}] => Project (Aggregate[g_k], aggs ++ ANY_VALUE(g_i) AS __fd_i)
-   fd i = the interned name "__fd_i" *)
+   fd i = the interned name "__fd_i". The key column's output field is found by name (`find(|f| f.name == c.name)`); the
+   binder gives that field the column's own qualifier (or none), which `ref_matches` records. *)
 Definition others {A} (k : nat) (l : list A) : list (nat * A) :=
   filter (fun ix => negb (Nat.eqb (fst ix) k)) (combine (seq 0 (length l)) l).
 Definition group_key_reduce (fd : nat -> Z) (k : nat) (p : plan) : plan :=
@@ -209,7 +229,7 @@ Definition group_key_reduce (fd : nat -> Z) (k : nat) (p : plan) : plan :=
       match nth_error group k, nth_error sch k with
       | Some gk, Some fk =>
           if (2 <=? n)%nat && (n <=? length sch)%nat
-             && match gk with [ck] => (f_name fk =? r_name ck) | _ => false end
+             && match gk with [ck] => ref_matches fk ck | _ => false end
           then
             let inner_sch := fk :: skipn n sch
                              ++ map (fun ix => mkField None (fd (fst ix)) (f_type (snd ix))) (others k (firstn n sch)) in
